@@ -76,7 +76,7 @@ var (
 )
 
 func init() {
-	for _, s := range []string{"0", "1", "2", "3", "4", "5", "6"} {
+	for _, s := range []string{"0", "1", "2", "3", "4", "5", "6", "7", "8", "9", "10", "11"} {
 		keyLits = append(keyLits, mkLit(s, tNum))
 	}
 	for _, s := range []string{"0", "1", "2", "3", "-1", "-2", "7", "10", "1.5", "2.25", "-.5", "100", "1000", ".125"} {
@@ -375,7 +375,7 @@ func genTable(t *rapid.T, name string, mustHave string) *tableT {
 	for _, p := range pool {
 		names = append(names, p.name)
 	}
-	chosen := subsetOf(t, names, 1, 5, name+"_cols")
+	chosen := subsetOf(t, names, 1, 6, name+"_cols")
 	if mustHave != "" && !contains(chosen, mustHave) {
 		chosen = append(chosen, mustHave)
 	}
@@ -397,9 +397,39 @@ func genTable(t *rapid.T, name string, mustHave string) *tableT {
 			}
 		}
 	}
-	nidx := rng(t, name+"_nidx", 0, 2)
+	// low-cardinality columns: columns outside every key are often limited to
+	// 2-3 values so that equal values repeat under different index prefixes
+	inKey := map[string]bool{}
+	for _, k := range tb.keys {
+		for _, c := range k {
+			inKey[c] = true
+		}
+	}
+	domain := map[string][]lit{}
+	var lowCard []string
+	for _, c := range tb.cols {
+		lits := poolOf(c.name).lits()
+		if !inKey[c.name] && chance(t, name+"_lowcard", 60) {
+			n := rng(t, name+"_ncard", 2, 3)
+			var sub []lit
+			for i := 0; i < n; i++ {
+				sub = append(sub, pickOf(t, name+"_cardval", lits))
+			}
+			lits = sub
+			lowCard = append(lowCard, c.name)
+		}
+		domain[c.name] = lits
+	}
+	nidx := rng(t, name+"_nidx", 0, 3)
 	for i := 0; i < nidx; i++ {
-		k := subsetOf(t, cn, 1, 2, fmt.Sprint(name, "_idx", i))
+		var k []string
+		if len(lowCard) > 0 && len(cn) > 1 && chance(t, name+"_idxshape", 50) {
+			// composite index led by a low-cardinality column: (c,a) or (c,a,b)
+			lead := pickOf(t, name+"_idxlead", lowCard)
+			k = append([]string{lead}, subsetOf(t, without(cn, []string{lead}), 1, 2, fmt.Sprint(name, "_idxrest", i))...)
+		} else {
+			k = subsetOf(t, cn, 1, 3, fmt.Sprint(name, "_idx", i))
+		}
 		if !hasSet(tb.allIndexes(), k) {
 			tb.indexes = append(tb.indexes, k)
 		}
@@ -410,18 +440,49 @@ func genTable(t *rapid.T, name string, mustHave string) *tableT {
 			tb.uniques = append(tb.uniques, k)
 		}
 	}
-	nrows := pickOf(t, name+"_nrows", []int{0, 1, 2, 3, 4, 5, 6, 7, 8, 9, 10, 11, 12, 6, 8, 10, 12, 12})
+	nrows := pickOf(t, name+"_nrows", []int{0, 1, 2, 3, 4, 5, 6, 7, 8, 9, 10, 11, 12, 6, 8, 10, 12, 12, 12, 12})
 	for i := 0; i < nrows; i++ {
 		row := make([]string, len(tb.cols))
 		for j, c := range tb.cols {
-			lits := poolOf(c.name).lits()
-			row[j] = pickOf(t, "v", lits).packed
+			row[j] = pickOf(t, "v", domain[c.name]).packed
 		}
 		if violates(tb, append(tb.rows[:len(tb.rows):len(tb.rows)], row)) == "" {
 			tb.rows = append(tb.rows, row)
 		}
 	}
 	return tb
+}
+
+// present returns, per column name, the distinct values stored in any table
+// (as literals), so that where constants can be drawn from values that match.
+func (d *dbT) present() map[string][]lit {
+	r := map[string][]lit{}
+	seen := map[string]bool{}
+	for _, tb := range d.tables {
+		for j, c := range tb.cols {
+			for _, row := range tb.rows {
+				k := c.name + "\x00" + row[j]
+				if !seen[k] {
+					seen[k] = true
+					r[c.name] = append(r[c.name], lit{src: unpackStr(row[j]), packed: row[j], typ: poolOf(c.name).typ})
+				}
+			}
+		}
+	}
+	return r
+}
+
+// leadCols returns the leading columns of the composite indexes and keys.
+func (d *dbT) leadCols() []string {
+	var r []string
+	for _, tb := range d.tables {
+		for _, ix := range tb.allIndexes() {
+			if len(ix) > 1 && !contains(r, ix[0]) {
+				r = append(r, ix[0])
+			}
+		}
+	}
+	return r
 }
 
 func contains(list []string, s string) bool {
